@@ -170,7 +170,18 @@ def spec_pool(rng):
         objs.append((c, cells_to_spec(c, points, rng)))
         objs.append((c, cells_to_spec(c, points, rng, universal_as_any=True)))
     probes = [ladder[0][0], ladder[1][0], ladder[2][0], ladder[3][0], ladder[4][0]]
-    return objs, probes, points
+    # the same sets reached by other routes: parsed back from their own text (carries the cached clause text the
+    # computed object lacks: `!=X`, `!=X.*`, `~=`), double complement, self-union (seed C13c: hash over the cached text)
+    twins = []
+    for c, o in objs:
+        for build in (lambda x: parse_version_specifier(str(x)), lambda x: ~~x, lambda x: x | x):
+            try:
+                t = build(o)
+            except Exception:  # noqa: BLE001
+                continue
+            if all(smem(t, q) == smem(o, q) for q in probes):   # (a rendering that changes the set is C06's business)
+                twins.append((c, t))
+    return objs + twins, probes, points
 
 
 def marker_pool(rng, n):
